@@ -191,6 +191,10 @@ func Select(a, i *Term) *Term {
 		_ = b
 		return &Term{v, a.Sort.V}
 	}
+	// select(const(v), i) = v (cvc5 rejects constant arrays whose default is not a value, e.g. an uninterpreted constant)
+	if pre := "((as const " + a.Sort.Name + ") "; strings.HasPrefix(a.S, pre) && strings.HasSuffix(a.S, ")") {
+		return &Term{a.S[len(pre) : len(a.S)-1], a.Sort.V}
+	}
 	return mk(a.Sort.V, "select", a, i)
 }
 
@@ -569,31 +573,51 @@ func runSolver(ctx context.Context, solver, file string, timeoutS int) SolverRes
 	return SolverResult{Status: st, Solver: solver, Secs: secs, Output: o}
 }
 
-// raceSolvers runs z3-new first (short budget), then all three concurrently.
-// Returns the first definite (sat/unsat) answer; otherwise the last answer.
-// allRes has every solver result obtained.
-func raceSolvers(file string, timeoutS int, all bool) (SolverResult, []SolverResult) {
+// raceSolvers runs z3-new first (short budget), then all three concurrently; when the query has an unpruned variant
+// (alt), z3-new and cvc5 are also started on it after a few seconds (a different set of ground terms often lets the
+// other variant through). Returns the first definite answer; otherwise the last answer. A `sat` on the pruned query
+// is not definite when an unpruned variant exists (fewer assumptions). allRes has every solver result obtained.
+func raceSolvers(file, alt string, timeoutS int, all bool) (SolverResult, []SolverResult) {
 	var allRes []SolverResult
 	ctx, cancel := context.WithCancel(context.Background())
 	defer cancel()
-	ch := make(chan SolverResult, len(solverBins))
-	start := func(s string) { go func() { ch <- runSolver(ctx, s, file, timeoutS) }() }
+	ch := make(chan SolverResult, 8)
+	start := func(s, f, tag string) {
+		go func() {
+			r := runSolver(ctx, s, f, timeoutS)
+			r.Solver += tag
+			if tag == "" && alt != "" && r.Status == "sat" {
+				r.Status = "unknown"
+			}
+			ch <- r
+		}()
+	}
 	// z3-new first; the others join after a short head start unless an answer is already there
-	start("z3-new")
+	start("z3-new", file, "")
 	pending := 1
-	launched := false
+	launched, launchedAlt := false, false
 	launchRest := func() {
 		if !launched {
 			launched = true
-			start("z3")
-			start("cvc5")
+			start("z3", file, "")
+			start("cvc5", file, "")
+			pending += 2
+		}
+	}
+	launchAlt := func() {
+		if !launchedAlt && alt != "" {
+			launchedAlt = true
+			start("z3-new", alt, "+full")
+			start("cvc5", alt, "+full")
 			pending += 2
 		}
 	}
 	if all {
 		launchRest()
+		launchAlt()
 	}
 	timer := time.After(800 * time.Millisecond)
+	timer2 := time.After(1500 * time.Millisecond)
 	var best SolverResult
 	got := false
 	for pending > 0 {
@@ -601,6 +625,9 @@ func raceSolvers(file string, timeoutS int, all bool) (SolverResult, []SolverRes
 		case <-timer:
 			launchRest()
 			timer = nil
+		case <-timer2:
+			launchAlt()
+			timer2 = nil
 		case r := <-ch:
 			pending--
 			allRes = append(allRes, r)
@@ -616,6 +643,8 @@ func raceSolvers(file string, timeoutS int, all bool) (SolverResult, []SolverRes
 				}
 			} else if !launched {
 				launchRest()
+			} else if pending == 0 {
+				launchAlt() // everybody gave up on the pruned query before the fallback was due
 			}
 		}
 	}
